@@ -267,7 +267,7 @@ func runRange() {
 		// second oracle: the explicit Go expansion must say what the model says
 		g := gres[i]
 		gobs := parseRangeOut(g.Out)
-		if g.Kind != "ran" || !gobs.ok || gobs.capped || !intsEq(gobs.vals, expVals) || gobs.runs != expRuns || gobs.evals != expEv {
+		if !goOracleOff() && (g.Kind != "ran" || !gobs.ok || gobs.capped || !intsEq(gobs.vals, expVals) || gobs.runs != expRuns || gobs.evals != expEv) {
 			oracleDisagreement(i, c.text(), fmt.Sprintf("vals=%v runs=%d evals=%d", expVals, expRuns, expEv), g.Kind+" "+g.Out+" "+g.Detail)
 		}
 		agree++
